@@ -129,6 +129,23 @@ func domEpochs(env *Env) error {
 		// model from the state after block 1's BeginBlock and feed blocks 2.. to both sides.
 		c := NewChain(cfg)
 		infos := c.App.EpochsKeeper.AllEpochInfos(c.Ctx)
+		// the configured start time of an identifier is kept as registered (only an UNSET start time
+		// is replaced, by the registration block's time): "becomes 1 in the first block at or after
+		// its start time" and "n-th start = start + (n-1) x duration" are about the configured time
+		env.Eval("C15.start-time")
+		for _, x := range extra {
+			for _, e := range infos {
+				if e.Identifier != x.Identifier {
+					continue
+				}
+				if !x.StartTime.IsZero() && !e.StartTime.Equal(x.StartTime) {
+					env.Violate("C15.start-time", "start-time-replaced", fmt.Sprintf("%s registered with start time %s, stored %s", x.Identifier, x.StartTime.UTC(), e.StartTime.UTC()), hist)
+				}
+				if x.StartTime.IsZero() && !e.StartTime.Equal(cfg.InitTime) && !e.StartTime.Equal(c.Header.Time) {
+					env.Violate("C15.start-time", "unset-start-time", fmt.Sprintf("%s registered without start time, stored %s (genesis time %s)", x.Identifier, e.StartTime.UTC(), cfg.InitTime.UTC()), hist)
+				}
+			}
+		}
 		op := "epoch.reset"
 		env.Op(op, "ok")
 		hist = append(hist, op)
